@@ -28,6 +28,12 @@ func try1(c *fw.Case, what string, in []byte, f func()) bool {
 	return true
 }
 
+// prevDecoded remembers the decoded text of the previous sequence (one goroutine per worker process).
+var prevDecoded struct {
+	live []byte
+	want string
+}
+
 func inList(x []byte, l [][]byte) bool {
 	for _, y := range l {
 		if bytes.Equal(x, y) {
@@ -128,6 +134,16 @@ func c08Septets(c *fw.Case, s []byte, class string) {
 	try1(c, "GSM7Unpacked.Decode", s, func() { d3, e3 = datacoding.GSM7Unpacked(append([]byte(nil), s...)).Decode() })
 	var inval []byte
 	try1(c, "ValidateGSM7Buffer", s, func() { inval = g7.ValidateGSM7Buffer(append([]byte(nil), s...)) })
+	// results stay what they were: the previous call's decoded text must not be disturbed by the calls made since
+	if prevDecoded.live != nil && string(prevDecoded.live) != prevDecoded.want {
+		c.Failf("decoded-text-changed-by-later-call", "the text returned by an earlier Decode (%q) reads %q after later calls on other input", prevDecoded.want, prevDecoded.live)
+	}
+	prevDecoded.live, prevDecoded.want = nil, ""
+	if e1 == nil && len(d1) > 0 {
+		prevDecoded.live, prevDecoded.want = d1, string(d1)
+	} else if ferr == nil && len(viaFuncs) > 0 {
+		prevDecoded.live, prevDecoded.want = viaFuncs, string(viaFuncs)
+	}
 	if (e1 == nil) != decodable || (decodable && string(d1) != text) {
 		c.Failf("decode-septets", "Decode(%s) = (%q, %v), reference (%q, ok=%v)", hx(s), d1, e1, text, decodable)
 	}
